@@ -1179,3 +1179,61 @@ B("C12", "accumulation-reordered", ALI,
                     total_weight += weight  # in the unitary alignment""",
   """                    total_weight += weight_confidence * weight_base
                     total_disorder += weight_base * cat_dissim * weight_confidence""")
+
+# =============================================================================================
+# C17
+# =============================================================================================
+M("C17", "repeated-threshold-two", ALI,
+  "        repeated_tuples = {tup for tup, count in tuples_counts.items() if count > 1}",
+  "        repeated_tuples = {tup for tup, count in tuples_counts.items() if count > 2}", "R-C17-1", "a unit placed exactly twice is accepted")
+M("C17", "missing-test-dropped", ALI,
+  """        missing_tuples = continuum_tuples - set(alignment_tuples)
+        if missing_tuples:""",
+  """        missing_tuples = continuum_tuples - set(alignment_tuples)
+        if missing_tuples and len(missing_tuples) > 1:""", "R-C17-1", "a single missing unit is accepted")
+M("C17", "soft-zero-test-negative", ALI,
+  "                if factor == 0:", "                if factor < 0:", "R-C17-3")
+M("C17", "soft-ignores-check-validity", ALI,
+  "        super().__init__(unitary_alignments, continuum, check_validity, disorder)",
+  "        super().__init__(unitary_alignments, continuum, False, disorder)", "R-C17-4")
+M("C17", "check-validity-inverted", ALI,
+  "        if not check_validity:\n            return\n        else:\n            self.check()",
+  "        if check_validity:\n            return\n        else:\n            self.check()", "R-C17-4")
+M("C17", "none-slots-counted-as-missing", ALI,
+  """                if unit is None:
+                    continue
+                alignment_tuples.append((annotator, unit))""",
+  """                alignment_tuples.append((annotator, unit))""", "R-C17-1")
+M("C17", "missing-only-from-first-unitary-alignment", ALI,
+  """        for unitary_alignment in self.unitary_alignments:
+            for (annotator, unit) in unitary_alignment.n_tuple:
+                if unit is None:""",
+  """        for unitary_alignment in self.unitary_alignments[:1]:
+            for (annotator, unit) in unitary_alignment.n_tuple:
+                if unit is None:""", "R-C17-1")
+M("C17", "soft-counts-only-first-occurrence-annotator", ALI,
+  "        unit_occurences = SortedDict({annotator: SortedDict({unit: 0 for unit in units})\n                                      for annotator, units in continuum._annotations.items()})",
+  "        unit_occurences = SortedDict({annotator: SortedDict({unit: 0 for unit in units[:1]})\n                                      for annotator, units in continuum._annotations.items()})", "R-C17-3")
+M("C17", "check-before-fields-set", ALI,
+  """        self.unitary_alignments = list(unitary_alignments)
+        self.continuum = continuum
+        self._disorder: Optional[float] = disorder
+
+        if not check_validity:
+            return
+        else:
+            self.check()""",
+  """        self.unitary_alignments = list(unitary_alignments)
+        self._disorder: Optional[float] = disorder
+        if check_validity:
+            self.check()
+        self.continuum = continuum""", "R-C17-4", "validation at construction runs without the continuum: raises ValueError instead of checking")
+B("C17", "check-validity-positive-form", ALI,
+  "        if not check_validity:\n            return\n        else:\n            self.check()",
+  "        if check_validity:\n            self.check()")
+B("C17", "guarded-append", ALI,
+  """                if unit is None:
+                    continue
+                alignment_tuples.append((annotator, unit))""",
+  """                if unit is not None:
+                    alignment_tuples.append((annotator, unit))""")
